@@ -103,4 +103,20 @@ volume limit and the loader exactly as `predict` does; `direct/inference.py` cal
 `write_output_to_h5`; there is no other call site -/
 theorem recon_caller_facts_eq : recon_caller_facts = expectedCallerFacts := rfl
 
+/-! phase 4: the `ndim == 3` branch of `evaluate` -/
+theorem eval3d_rows_eq (d0 d1 d2 d3 d4 : Int) : eval3d_rows d0 d1 d2 d3 d4 = d0 * d2 := by
+  unfold eval3d_rows; first | rfl | exact Int.mul_comm _ _
+
+/-- the first `reshape` argument is the number of rows of `evalReshape` -/
+theorem eval3d_rows_length {β} (z : Nat) (vol : List (List (List β))) (c x y : Nat) :
+    ((evalReshape z vol).length : Int) = eval3d_rows vol.length c z x y := by
+  rw [eval3d_rows_eq]
+  simp only [evalReshape, transpose12, List.length_flatten, List.map_map, Function.comp_def, List.length_map,
+    List.length_range]
+  induction vol with
+  | nil => simp
+  | cons a rest ih => simp only [List.map_cons, List.sum_cons, List.length_cons]; push_cast at ih ⊢; rw [ih, Int.add_mul, Int.one_mul, Int.add_comm]
+
+theorem eval3d_facts_eq : eval3d_facts = expectedEval3dFacts := rfl
+
 end DirectVerif.Bridge.C14
